@@ -956,3 +956,32 @@ def show(t, depth=0) -> str:
     if k == "caught":
         return f"caught {'/'.join(t[2])}"
     return k + "(" + ", ".join(show(x, d) if isinstance(x, tuple) else str(x) for x in t[1:]) + ")"
+
+
+# ---------------------------------------------------------------------------------- E2: call binder
+
+def bind_args(call_term, params, skip_first=False):
+    """Bind positional / keyword arguments of a call term to a parameter list.
+
+    Returns (bound: {param: term}, extra: {kw: term} not matching a parameter, spreads: [term], too_many: bool)."""
+    ps = list(params[1:] if skip_first else params)
+    bound, extra, spreads = {}, {}, []
+    too_many = False
+    pos = 0
+    for a in call_term[2]:
+        if a[0] == "star":
+            spreads.append(a)
+            continue
+        if pos < len(ps):
+            bound[ps[pos]] = a
+        else:
+            too_many = True
+        pos += 1
+    for k, v in call_term[3]:
+        if k == "**":
+            spreads.append(("dstar", v))
+        elif k in ps:
+            bound[k] = v
+        else:
+            extra[k] = v
+    return bound, extra, spreads, too_many
